@@ -165,14 +165,18 @@ def build(spec, fault=None):
             return y, sd
         if spec.get("ydtype"):
             # the value as a NumPy scalar of another real type (integer-valued targets: counts, discrete losses); the value itself is unchanged
-            y = getattr(np, spec["ydtype"])(y)
+            dt = getattr(np, spec["ydtype"])
+            if np.issubdtype(dt, np.integer):
+                info = np.iinfo(dt)
+                y = min(max(y, info.min), info.max)          # a saturating cost table
+            y = dt(y)
         calls["rets"][k] = (y, None)
         return y
 
     cons_fn = None
     ck = spec.get("cons")
     if ck:
-        r = {"ball": 2.5, "halfspace": 0.4, "slab": 0.35, "ring": 3.0, "sliver": 0.04, "tinyball": 1e-4, "lattice": 0.5, "nanregion": 1.0}[ck]
+        r = {"ball": 2.5, "halfspace": 0.4, "slab": 0.35, "ring": 3.0, "sliver": 0.04, "tinyball": 1e-4, "lattice": 0.5, "nanregion": 1.0, "openface": 0.0}[ck]
         if x0 is not None:
             x0z = z_of(x0) * 4
         else:
@@ -180,7 +184,7 @@ def build(spec, fault=None):
             # ball/half-space/slab wide enough to contain the whole plausible box (any drawn x0 is feasible)
             mid = [math.sqrt(plb[i] * pub[i]) if logc[i] else 0.5 * (plb[i] + pub[i]) for i in range(D)]
             x0z = z_of(mid) * 4
-            r = {"ball": 2.2 * math.sqrt(D), "halfspace": 2.1 * D, "slab": 2.1, "ring": 3.0, "sliver": 2.1, "tinyball": 2.2 * math.sqrt(D), "lattice": 0.5, "nanregion": 2.5}[ck]
+            r = {"ball": 2.2 * math.sqrt(D), "halfspace": 2.1 * D, "slab": 2.1, "ring": 3.0, "sliver": 2.1, "tinyball": 2.2 * math.sqrt(D), "lattice": 0.5, "nanregion": 2.5, "openface": 0.0}[ck]
 
         def cons_fn(X):
             X = np.atleast_2d(np.asarray(X, dtype=float))
@@ -196,6 +200,8 @@ def build(spec, fault=None):
                 elif ck == "nanregion":   # a float-valued constraint that is NaN on part of the box (square root of a negative number there)
                     s_ = float(z[0] - x0z[0]) + r
                     out[j] = abs(float(z[-1] - x0z[-1])) - (0.6 * r + (math.sqrt(s_) if s_ >= 0 else float("nan")))
+                elif ck == "openface":      # the face x_0 = ub_0 of the (closed) box is excluded: feasible iff x_0 < ub_0
+                    out[j] = 1.0 if X[j][0] >= ub[0] else -1.0
                 elif ck == "halfspace":
                     out[j] = float(np.sum(z - x0z)) - r
                 elif ck in ("slab", "sliver"):    # thin slab around the start point along the first coordinate
@@ -258,6 +264,10 @@ def _faulty(kind, mode, x):
         return wrap([complex(1.0, 2.0)])
     if kind == "wrapped_nan_array":
         return wrap(np.array([[float("nan")]]))
+    if kind == "pair":           # a (value, SD) pair from a target whose noise is NOT user-specified: not a scalar value
+        return (1.0, 0.5)
+    if kind == "pair_bad_sd":
+        return (1.0, float("nan"))
     if kind == "notpair":
         return 1.0
     if kind == "sdzero":
